@@ -70,6 +70,10 @@ def main(spec):
                                    "meta": {k: (v2 if isinstance(v2, (str, int, float, bool, list, type(None))) else str(v2)) for k, v2 in r.meta.items() if k not in ("smt2", "known_finding", "guard")}})
     except Exception as ex:
         rep["error"] = f"{type(ex).__name__}: {ex}"; rep["traceback"] = traceback.format_exc()[-3000:]
+        if type(ex).__name__ not in ("Unsupported", "EngineError", "PreFailed") and "/pyvc/" in rep["traceback"]:
+            # a Python exception raised INSIDE the engine's own code while it interprets source it was never run on (an unforeseen shape of value in a
+            # library model, say) is an engine limitation like any other: the unit is undecided and the run-time harness decides; the traceback is kept
+            rep["error"] = f"Unsupported: engine-internal {type(ex).__name__} while interpreting this unit ({str(ex)[:160]}); undecided"
     rep["wall_s"] = round(time.time() - t0, 3)
     return rep
 
